@@ -7,6 +7,7 @@ mod allocfail;
 mod batch;
 mod cli;
 mod cli_cli;
+mod colossal;
 mod gen;
 mod genselftest;
 mod giant;
@@ -65,6 +66,7 @@ fn main() {
         "image-of" => threads_cli::cli_image_of(&args[2..]),
         "image-of-lowmem" => allocfail::cli_child(&args[2..]),
         "allocfail" => allocfail::cli(&args[2..]),
+        "colossal" => colossal::cli(&args[2..]),
         "replay" => {
             let path = args.get(2).unwrap_or_else(|| harness_error("replay: missing path"));
             let txt = std::fs::read_to_string(path)
@@ -79,6 +81,7 @@ fn main() {
                 Some("perm") => threads_cli::replay_perm(&doc),
                 Some("giant") => giant::replay(&doc),
                 Some("allocfail") => allocfail::replay(&doc),
+                Some("colossal") => colossal::replay(&doc),
                 other => harness_error(&format!("replay: unknown engine {other:?}")),
             };
             if code == 1 {
